@@ -449,6 +449,9 @@ def run(prog, res, tier):
     sv = c03.sev_enum(prog)
     if sv is not None:
         c03_more.r5_part_results(prog, res, sv)
+        # the severity that strict and lenient reads are compared on is only ever raised: setters that could lower what an earlier
+        # instance or attribute recorded are the reviewed relaxation sites of C03 R2 (same rule, same table)
+        c03.r2_relaxation(prog, res, sv)
     r1(prog, res)
     r2(prog, res)
     r3(prog, res)
